@@ -1303,8 +1303,11 @@ fn execute_match(
             ))?;
 
             match (&actual_bid_fee, original_bid_fee) {
-                (Some(actual_bid_fee), Some(mut original_bid_fee)) => {
-                    let refund_amount = original_bid_fee.amount - actual_bid_fee.amount;
+                (actual_bid_fee, Some(mut original_bid_fee)) => {
+                    let refund_amount = original_bid_fee.amount
+                        - actual_bid_fee
+                            .as_ref()
+                            .map_or(Uint128::zero(), |fee| fee.amount);
 
                     if refund_amount.gt(&Uint128::zero()) {
                         original_bid_fee.amount = refund_amount;
